@@ -379,6 +379,16 @@ def generate(target, registry):
             p.status, p.value = 'return', NONE()
         S1 = p.mgrs[mkey] if mkey else None
         muts = {nm: (entry_env[nm], p.env.get(nm, entry_env[nm])) for nm in c.mutates}
+        if p.status == 'stopped':
+            info['stopped_paths'] = info.get('stopped_paths', 0) + 1
+            env_z = {('env_' + k): v.z for k, v in p.env.items() if isinstance(v, IntV)}
+            sctx = Ctx(S=S1, S0=S0, S1=S1, a=ctx0.a, mgrs0=entry_mgrs, mgrs=p.mgrs, uses=c.uses, ex=ex, path=p, **env_z)
+            for nm, g in (c.stop_post(sctx) if getattr(c, 'stop_post', None) else []):
+                ex.oblige(p, f'prefix:{nm}@{p.line}', g, p.line)
+            for exc, rs in c.raises.items():
+                if rs.must:
+                    ex.oblige(p, f'raises:{exc}.body-reached-only-when-not@{p.line}', Not(rs.when(ctx0)), p.line)
+            continue
         if p.status == 'return' and p.exc is None or p.status == 'return':
             if getattr(c, 'ghost', None) and S1 is not None:
                 # ghost statement executed at normal return: assigns ghost fields only (the contract says which)
@@ -607,7 +617,7 @@ def _gen_job(args):
     # reachability cover (vacuity guard b): at least one normal-return path must not be provably dead
     live = []
     for p in paths:
-        if p.status == 'return' or p.status == 'run':
+        if p.status in ('return', 'run', 'stopped'):
             live.append(to_smt2(p.pc, BoolVal(False)))
     contracts_used = sorted(set(ex.calls))
     assumed = sorted({c for c in contracts_used if C.REG[c].assumed})
